@@ -182,6 +182,22 @@ func drawCase(t *rapid.T, o gen.DataOpts, nq int) *Case {
 		c.Queries = append(c.Queries, Q{Expr: taut, GroupBy: long})
 		rc := pool.Cols[rapid.IntRange(0, len(pool.Cols)-1).Draw(t, "repcol")]
 		c.Queries = append(c.Queries, Q{Expr: pool.Expr(t, gen.ExprOpts{}), GroupBy: []string{rc, pool.Cols[0], rc}})
+		// a filter that restricts the grouped column itself to a list of values,
+		// some of which no row has (whoever derives the groups from the filter
+		// instead of the schema meets values that do not exist)
+		if rapid.IntRange(0, 2).Draw(t, "valuelist") == 0 {
+			gc := pool.Cols[rapid.IntRange(0, len(pool.Cols)-1).Draw(t, "vlcol")]
+			vals := d.Values(gc)
+			list := []model.Expr{model.Eq(gc, vals[rapid.IntRange(0, len(vals)-1).Draw(t, "vl1")]), model.Eq(gc, "no-such-value~"), model.Eq(gc, vals[rapid.IntRange(0, len(vals)-1).Draw(t, "vl2")])}
+			if rapid.Bool().Draw(t, "vlabsentfirst") {
+				list[0], list[1] = list[1], list[0]
+			}
+			e := model.Or(list...)
+			if rapid.Bool().Draw(t, "vlnested") {
+				e = model.And(e, taut)
+			}
+			c.Queries = append(c.Queries, Q{Expr: e, GroupBy: []string{gc}}, Q{Expr: model.Eq(gc, "no-such-value~"), GroupBy: []string{gc, pool.Cols[0]}})
+		}
 		if u := ds.UniqueCol(); u != "" {
 			best := pool.Cols[0]
 			for _, pc := range pool.Cols {
